@@ -229,6 +229,7 @@ func (s *c15state) checkDisk(ctx string) {
 		s.rt.Fatalf("harness: %v", err)
 	}
 	seen := map[string]bool{}
+	hashOf := map[string]string{} // stored hash -> login: equal passwords of two accounts must not show as equal stored values
 	for _, e := range ents {
 		n := e.Name()
 		if !strings.HasSuffix(n, ".yaml") {
@@ -259,6 +260,10 @@ func (s *c15state) checkDisk(ctx string) {
 		if bcrypt.CompareHashAndPassword([]byte(f.Password), hlref.Obfuscate([]byte(a.pw))) != nil {
 			s.rt.Fatalf("%s: stored hash of %q does not verify against the model password %q\nhistory: %s", ctx, l, a.pw, strings.Join(s.history, " | "))
 		}
+		if other, dup := hashOf[f.Password]; dup {
+			s.rt.Fatalf("%s: accounts %q and %q are stored with the very same password hash %q: the hashes are not salted\nhistory: %s", ctx, other, l, f.Password, strings.Join(s.history, " | "))
+		}
+		hashOf[f.Password] = l
 		if a.pw != "" && bytes.Contains(b, []byte(a.pw)) && len(a.pw) > 3 {
 			s.rt.Fatalf("%s: file %q contains the clear-text password", ctx, n)
 		}
